@@ -310,7 +310,8 @@ pub fn c09_mixed3_body<S: Src>(s: &mut S) {
     let _ = out;
 }
 
-/// @harness props=C09:T,C20:T n=4 err=Cheap timeout=3000
+/// (not registered in any tier: did not finish within 3000 s in the thorough validation run; kept for manual runs)
+/// @harness props=X09:T n=4 err=Cheap timeout=3000
 /// @shape atom.pratt(( prefix(P,'-'), infix(left(1),'+') )) with P in {0, 2} (two concrete tables, chosen symbolically)   vs textbook reading of every input of length <= 4
 /// @symbolic input: 4 arbitrary bytes; which table
 /// @aims a prefix operator captures `a+b` iff '+' binds at least as tightly as the prefix: -a+b = (-a)+b for P=2, -(a+b) for P=0
@@ -370,7 +371,8 @@ pub fn c09_two_infix_body<S: Src>(s: &mut S) {
     }
 }
 
-/// @harness props=C09:T,C20:T n=5 err=Cheap timeout=3000
+/// (not registered in any tier: did not finish within 3000 s in the thorough validation run; kept for manual runs)
+/// @harness props=X09:T n=5 err=Cheap timeout=3000
 /// @shape atom.pratt(( prefix(2,'!'), prefix(1,'-'), infix(left(1),'+') )) on inputs of the form  ! - a + b  (atoms symbolic)
 /// @symbolic two atoms
 /// @assume input == [BANG, NEG, a, PLUS, b]
